@@ -1048,4 +1048,288 @@ example : acceptM fnsAscii (children fnsAscii []
       { files := [(1, .file (abcq ++ ['\n']) false), (2, .file (zqxv ++ ['\n']) false)] } 2) zqxv :=
   file_dict_isolated fnsAscii [] _ untitledPathUrl 1 2 zqé [] (by decide) zqxv
 
+/-! ## w26 — FILE dictionaries reload to exactly the words added (audit w22 §4 C07 (b))
+
+`restart_preserves` is about the user dictionary only. The same statement for a per-file dictionary: no crash
+hypothesis is needed (`crashAdd` is a crash of the USER dictionary's save; the model has no crash point for
+`save_file_dictionary`, see asbuilt_w24 "Not done"), and only commands issued from a document with a `file:`-like URL
+(`untitled = false`, `path = true`) count — every other URL kind writes nothing (`add_file_untitled_writes_nothing`,
+`opaque_url_never_checked`). -/
+
+/-- the words of the `HarperAddToFileDict` commands of a history that reach the dictionary file `n` -/
+def fileAdds (n : Nat) : List Op → List Word
+  | [] => []
+  | .addFile u m w _ :: ops =>
+    if u.path = true ∧ u.untitled = false ∧ m = n then w :: fileAdds n ops else fileAdds n ops
+  | _ :: ops => fileAdds n ops
+
+theorem file_dict_reload_from (f : Fns) (cur : List Entry) (n : Nat) (ops : List Op) :
+    ∀ (s : State) (acc : List Word), Clean f (fileDisk s.files n) →
+      (∀ w, w ∈ loadOrEmpty f (fileDisk s.files n) ↔ w ∈ acc) →
+      WellFormed (fileAdds n ops) →
+      (∀ a ∈ acc ++ fileAdds n ops, ∀ b ∈ acc ++ fileAdds n ops, key f a = key f b → a = b) →
+      ∀ w, w ∈ loadOrEmpty f (fileDisk (runOps f cur s ops).files n) ↔ w ∈ acc ++ fileAdds n ops := by
+  induction ops with
+  | nil => intro s acc _ hm _ _ w; simpa [runOps, fileAdds] using hm w
+  | cons op ops ih =>
+    intro s acc hc hm hwf hcol
+    have same : ∀ s' : State, fileDisk s'.files n = fileDisk s.files n → fileAdds n (op :: ops) = fileAdds n ops →
+        ∀ w, w ∈ loadOrEmpty f (fileDisk (runOps f cur s' ops).files n) ↔ w ∈ acc ++ fileAdds n (op :: ops) := by
+      intro s' hs' hu
+      rw [hu] at hwf hcol ⊢
+      exact ih s' acc (by rw [hs']; exact hc) (by rw [hs']; exact hm) hwf hcol
+    cases op with
+    | add w' ord => exact same _ rfl rfl
+    | crashAdd w' ord k j => exact same _ rfl rfl
+    | restart => exact same _ rfl rfl
+    | lint u m qs => exact same _ (by rw [step_lint_files]) rfl
+    | jsImport ws => exact same _ rfl rfl
+    | jsLint qs => exact same _ rfl rfl
+    | jsRestart ord => exact same _ rfl rfl
+    | addFile u m w' ord =>
+      by_cases hthis : u.path = true ∧ u.untitled = false ∧ m = n
+      · obtain ⟨hp, hu, rfl⟩ := hthis
+        have hfu : u = fileUrl := by cases u; simp_all
+        subst hfu
+        have hfa : fileAdds m (.addFile fileUrl m w' ord :: ops) = w' :: fileAdds m ops := by
+          simp [fileAdds]
+        rw [hfa] at hwf hcol ⊢
+        have hw' : WellFormedWord w' := hwf w' (by simp)
+        obtain ⟨hl, hperm, _, hwf'⟩ := add_reload f (fileDisk s.files m) w' ord hc hw'
+        have he := loadOrEmpty_of_loadDict hl
+        have hm' : ∀ x, x ∈ loadOrEmpty f (fileDisk (step f cur s (.addFile fileUrl m w' ord)).1.files m)
+            ↔ x ∈ acc ++ [w'] := by
+          intro x
+          simp only [step_addFile_file, fileDisk_cons_self, he, hperm.mem_iff]
+          constructor
+          · intro hx
+            rcases mem_of_mem_insert f w' x _ hx with rfl | hx
+            · simp
+            · simp [(hm x).mp hx]
+          · intro hx
+            rcases List.mem_append.mp hx with hx | hx
+            · by_cases hk : key f x = key f w'
+              · have : x = w' := hcol x (by simp [hx]) w' (by simp) hk
+                rw [this]; exact mem_insert_self f w' _
+              · exact mem_insert_of_ne f w' x _ ((hm x).mpr hx) hk
+            · have : x = w' := by simpa using hx
+              rw [this]; exact mem_insert_self f w' _
+        have hc' : Clean f (fileDisk (step f cur s (.addFile fileUrl m w' ord)).1.files m) := by
+          simp only [step_addFile_file, Clean, fileDisk_cons_self, he]; exact hwf'
+        have := ih (step f cur s (.addFile fileUrl m w' ord)).1 (acc ++ [w']) hc' hm'
+          (fun x hx => hwf x (by simp [hx])) (by simpa using hcol)
+        intro w
+        simpa [runOps] using this w
+      · have hfa : fileAdds n (.addFile u m w' ord :: ops) = fileAdds n ops := by
+          simp only [fileAdds, if_neg hthis]
+        refine same _ ?_ hfa
+        by_cases hmn : m = n
+        · subst hmn
+          -- a command for this very name from a URL kind that writes nothing
+          simp only [step]
+          split
+          · rfl
+          · split
+            · split
+              · rfl
+              · rename_i hp hu
+                exact absurd ⟨hp, by simpa using hu, rfl⟩ hthis
+            · rfl
+        · exact step_addFile_fileDisk_ne f cur s u m n w' ord (fun h => hmn h.symm)
+
+/-- **Per-file dictionaries lose nothing either.** Starting without dictionary files, after ANY history (user-dictionary
+adds and their crashes, adds to this and to other file dictionaries from documents of every URL kind, document checks,
+restarts, JS calls) in which the words added to the file dictionary `n` from `file:` documents are well-formed and no
+two different ones share a lower-cased normalized key, the file `n` reloads to exactly the set of those words, with
+pairwise different keys. -/
+theorem file_dict_restart_preserves (f : Fns) (cur : List Entry) (n : Nat) (ops : List Op)
+    (hwf : WellFormed (fileAdds n ops))
+    (hcol : ∀ a ∈ fileAdds n ops, ∀ b ∈ fileAdds n ops, key f a = key f b → a = b) :
+    (∀ w, w ∈ loadOrEmpty f (fileDisk (runOps f cur {} ops).files n) ↔ w ∈ fileAdds n ops) ∧
+    UniqueKeys f (loadOrEmpty f (fileDisk (runOps f cur {} ops).files n)) := by
+  refine ⟨?_, uniqueKeys_loadOrEmpty f _⟩
+  have := file_dict_reload_from f cur n ops {} [] (by intro w hw; cases hw)
+    (by intro w; simp [fileDisk, loadOrEmpty, loadDict, readToString]) hwf (by simpa using hcol)
+  simpa using this
+
+/-- non-vacuity: adds to file 1 from a `file:` document interleaved with a crashed user-dictionary save, an add to
+file 2, adds for name 1 from an `untitled:/…` and an opaque URL (which write nothing), restarts and a repeated add -/
+def fileHistory : List Op :=
+  [.addFile fileUrl 1 zqxv [], .crashAdd abcq [] 1 0, .addFile fileUrl 2 zqé [], .restart,
+   .addFile untitledPathUrl 1 zqApos [], .addFile opaqueUrl 1 Zqxv [], .addFile fileUrl 1 abcq [],
+   .lint fileUrl 1 [zqxv], .addFile fileUrl 1 zqxv []]
+
+example : fileAdds 1 fileHistory = [zqxv, abcq, zqxv] ∧ WellFormed (fileAdds 1 fileHistory) ∧
+    loadOrEmpty fnsAscii (fileDisk (runOps fnsAscii [] {} fileHistory).files 1) = [zqxv, abcq] ∧
+    loadOrEmpty fnsAscii (fileDisk (runOps fnsAscii [] {} fileHistory).files 2) = [zqé] := by decide
+
+example : (∀ w, w ∈ loadOrEmpty fnsAscii (fileDisk (runOps fnsAscii [] {} fileHistory).files 1) ↔
+      w ∈ fileAdds 1 fileHistory) ∧
+    UniqueKeys fnsAscii (loadOrEmpty fnsAscii (fileDisk (runOps fnsAscii [] {} fileHistory).files 1)) :=
+  file_dict_restart_preserves fnsAscii [] 1 fileHistory (by decide) (by decide)
+
+/-! ## w26 — the JS linter: imported words are accepted FROM THEN ON and survive `new Linter` (audit w22 §4 C07 (b))
+
+`js_import_accepted_partial` is about the lint right after `import_words`. Here: any later sequence of JS calls
+(`import_words`, `lint`, `new Linter` + `import_words(export_words())` with the export in any order) and language-server
+operations (which do not touch the JS linter). The lint dictionary is rebuilt only when `word_count` grew
+(`harper-wasm/src/lib.rs`, `import_words`), so it may LAG behind `user_dictionary`; the invariant carried
+(`Lemmas/DictIO.JsHolds`) is "both are keyed maps and both hold `w`". -/
+
+/-- **A word imported into the JS linter is accepted from then on (partial).** `Linter::import_words(ws)` with `w` in
+the batch, on a linter whose `user_dictionary` lacks `w`'s key (`hnew`: so `word_count` grows and
+`synchronize_lint_dict` runs), no other spelling of `w`'s key in the batch (`hws`); then ANY sequence `rest` of later
+operations that are `BenignJs` for `w` — `import_words` batches without a different spelling of `w`'s key, `lint`,
+`new Linter` + `import_words(export_words())` in any order, and every language-server operation: `w` is not reported
+by `Linter::lint` afterwards, under provisos (1) normalized and (2) curated dialect of `add_then_accepted_partial`.
+Missing for the full property: exactly these provisos; `hnew` is needed (`js_import_case_variant_stale`: the
+just-imported `zqxv` is reported) and so is `BenignJs` (`js_import_case_variant_lost`). -/
+theorem js_import_then_accepted_partial (f : Fns) (cur : List Entry) (s : State) (w : Word)
+    (ws : List Word) (rest : List Op)
+    (hu : UniqueKeys f s.js.user) (hnew : ∀ e ∈ s.js.user, key f e ≠ key f w) (hw : w ∈ ws)
+    (hws : ∀ x ∈ ws, key f x = key f w → x = w)
+    (hn : f.normalize w = w) (hcur : ∀ e, lookup f cur w = some e → e.dialectOk = true)
+    (hrest : ∀ op ∈ rest, BenignJs f w op) :
+    acceptM f [cur, entries (runOps f cur (step f cur s (.jsImport ws)).1 rest).js.lint] w = true := by
+  have h0 : JsHolds f w (step f cur s (.jsImport ws)).1.js :=
+    jsHolds_import_new f w ws s.js hu hnew hw hws
+  obtain ⟨_, hl, _, hwl⟩ := benignJs_runOps f cur w rest _ hrest h0
+  exact acceptM_of_user f cur _ [] hl w hwl hn hcur
+
+/-- the same, read off the answer of a later `Linter::lint` call whose word tokens are `qs`: the answer for
+every occurrence of `w` is "accepted" -/
+theorem js_import_then_lint_accepts (f : Fns) (cur : List Entry) (s : State) (w : Word)
+    (ws : List Word) (rest : List Op) (qs : List Word)
+    (hu : UniqueKeys f s.js.user) (hnew : ∀ e ∈ s.js.user, key f e ≠ key f w) (hw : w ∈ ws)
+    (hws : ∀ x ∈ ws, key f x = key f w → x = w)
+    (hn : f.normalize w = w) (hcur : ∀ e, lookup f cur w = some e → e.dialectOk = true)
+    (hrest : ∀ op ∈ rest, BenignJs f w op) :
+    (step f cur (runOps f cur (step f cur s (.jsImport ws)).1 rest) (.jsLint qs)).2
+        = qs.map (acceptM f [cur, entries (runOps f cur (step f cur s (.jsImport ws)).1 rest).js.lint]) ∧
+    ∀ i (hi : i < qs.length), qs[i] = w →
+      (step f cur (runOps f cur (step f cur s (.jsImport ws)).1 rest) (.jsLint qs)).2[i]? = some true := by
+  refine ⟨rfl, fun i hi hq => ?_⟩
+  simp only [step, List.getElem?_map, List.getElem?_eq_getElem hi, Option.map_some, hq]
+  exact congrArg some (js_import_then_accepted_partial f cur s w ws rest hu hnew hw hws hn hcur hrest)
+
+/-- a linter that already holds a word; the batch brings `zqé` and `zqxv`; later: a lint, a batch with another new
+word and a re-import of an old one, a `new Linter` fed the export in a PERMUTED order, a language-server add of a case
+variant (does not reach the JS linter), another import, another `new Linter` (junk order: the model's own is used) -/
+def jsHistory : List Op :=
+  [.jsLint [zqxv], .jsImport [Zqxv.reverse, abcq], .jsRestart [Zqxv.reverse, zqxv, abcq, zqé],
+   .add Zqxv [], .jsImport [colour], .jsRestart [abcq]]
+
+-- non-vacuity of `js_import_then_accepted_partial`: all hypotheses together, the curated slice listing `w`'s key
+-- (capitalised) and `colour` for another dialect …
+example : UniqueKeys fnsAscii (State.js { js := ⟨[abcq], [abcq]⟩ }).user ∧
+    (∀ e ∈ (State.js { js := ⟨[abcq], [abcq]⟩ }).user, key fnsAscii e ≠ key fnsAscii zqxv) ∧
+    zqxv ∈ [zqé, zqxv] ∧ (∀ x ∈ [zqé, zqxv], key fnsAscii x = key fnsAscii zqxv → x = zqxv) ∧
+    fnsAscii.normalize zqxv = zqxv ∧
+    (∀ e, lookup fnsAscii [⟨Zqxv, true⟩, ⟨colour, false⟩] zqxv = some e → e.dialectOk = true) ∧
+    (∀ op ∈ jsHistory, BenignJs fnsAscii zqxv op) := by decide
+-- … the theorem applied …
+example : acceptM fnsAscii [[⟨Zqxv, true⟩, ⟨colour, false⟩],
+      entries (runOps fnsAscii [⟨Zqxv, true⟩, ⟨colour, false⟩]
+        (step fnsAscii [⟨Zqxv, true⟩, ⟨colour, false⟩] { js := ⟨[abcq], [abcq]⟩ } (.jsImport [zqé, zqxv])).1
+        jsHistory).js.lint] zqxv = true :=
+  js_import_then_accepted_partial fnsAscii _ _ zqxv _ jsHistory (by decide) (by decide) (by decide)
+    (by decide) (by decide) (by decide) (by decide)
+-- … and what the kernel computes: the permuted export order IS the new linter's order, the final linter holds all
+-- five words (the language-server add did not reach it), and the lint answers
+example : (runOps fnsAscii [] { js := ⟨[abcq], [abcq]⟩ }
+      [.jsImport [zqé, zqxv], .jsLint [zqxv], .jsImport [Zqxv.reverse, abcq],
+       .jsRestart [Zqxv.reverse, zqxv, abcq, zqé]]).js
+      = ⟨[Zqxv.reverse, zqxv, abcq, zqé], [Zqxv.reverse, zqxv, abcq, zqé]⟩ ∧
+    (runOps fnsAscii [] { js := ⟨[abcq], [abcq]⟩ } (.jsImport [zqé, zqxv] :: jsHistory)).js
+      = ⟨[Zqxv.reverse, zqxv, abcq, zqé, colour], [Zqxv.reverse, zqxv, abcq, zqé, colour]⟩ ∧
+    (step fnsAscii [⟨Zqxv, true⟩, ⟨colour, false⟩]
+      (runOps fnsAscii [⟨Zqxv, true⟩, ⟨colour, false⟩] { js := ⟨[abcq], [abcq]⟩ }
+        (.jsImport [zqé, zqxv] :: jsHistory))
+      (.jsLint [zqxv, Zqxv, zqé, colour, ['z', 'q']])).2 = [true, true, true, false, false] := by decide
+
+/-- **`BenignJs` is needed: a later case-variant import loses the word.** `import ["zqxv"]`, `import ["Zqxv"]`:
+`user_dictionary` (and `export_words`) now holds `Zqxv` only; the count did not grow, so the STALE lint dictionary
+still accepts `zqxv` — until the next synchronise: a `new Linter` fed the export, or any later import of a new word,
+reports `zqxv`. (The JS face of `case_collision`.) -/
+theorem js_import_case_variant_lost :
+    ¬ BenignJs fnsAscii zqxv (.jsImport [Zqxv]) ∧
+    (runOps fnsAscii [] {} [.jsImport [zqxv], .jsImport [Zqxv]]).js = ⟨[Zqxv], [zqxv]⟩ ∧
+    (step fnsAscii [] (runOps fnsAscii [] {} [.jsImport [zqxv], .jsImport [Zqxv]]) (.jsLint [zqxv])).2
+      = [true] ∧
+    (step fnsAscii [] (runOps fnsAscii [] {} [.jsImport [zqxv], .jsImport [Zqxv], .jsRestart []])
+      (.jsLint [zqxv])).2 = [false] ∧
+    (step fnsAscii [] (runOps fnsAscii [] {} [.jsImport [zqxv], .jsImport [Zqxv], .jsImport [abcq]])
+      (.jsLint [zqxv])).2 = [false] := by decide
+
+/-- in a `BenignJs` history the lint dictionary may still lag behind `user_dictionary` — for OTHER words: `abcq` is
+replaced by `Abcq` in `user_dictionary`, the lint dictionary keeps `abcq`; `zqxv` is in both -/
+theorem js_lint_lags_in_benign_history :
+    (∀ op ∈ [Op.jsImport [abcq], .jsImport [['A', 'b', 'c', 'q']]], BenignJs fnsAscii zqxv op) ∧
+    (runOps fnsAscii [] {} [.jsImport [zqxv], .jsImport [abcq], .jsImport [['A', 'b', 'c', 'q']]]).js
+      = ⟨[zqxv, ['A', 'b', 'c', 'q']], [zqxv, abcq]⟩ := by decide
+
+/-! ### the JS linter loses nothing: `export_words` / `new Linter` round trips -/
+
+/-- **`new Linter` + `import_words(export_words())` rebuilds exactly the export.** Whatever order `export_words`
+(`words_iter` of the hash map) returns, the new linter's `user_dictionary` AND its lint dictionary are exactly that
+sequence: no word is dropped, none invented, and the two are in sync — even if the old linter's lint dictionary was
+stale. -/
+theorem js_restart_rebuilds_export (f : Fns) (cur : List Entry) (s : State) (ord : List Word)
+    (hu : UniqueKeys f s.js.user) :
+    (step f cur s (.jsRestart ord)).1.js = ⟨orderOf ord s.js.user, orderOf ord s.js.user⟩ ∧
+    (orderOf ord s.js.user).Perm s.js.user :=
+  ⟨js_restart_exact f ord s.js hu, orderOf_perm ord s.js.user⟩
+
+-- non-vacuity: a stale linter (`js_import_case_variant_stale`), the export handed over in another order
+example : UniqueKeys fnsAscii (State.js { js := ⟨[zqxv, abcq, zqé], [Zqxv, abcq]⟩ }).user ∧
+    (step fnsAscii [] { js := ⟨[zqxv, abcq, zqé], [Zqxv, abcq]⟩ } (.jsRestart [zqé, zqxv, abcq])).1.js
+      = ⟨[zqé, zqxv, abcq], [zqé, zqxv, abcq]⟩ := by decide
+
+/-- **The JS linter loses nothing and stays in sync (the JS `restart_preserves`).** Starting from a fresh `Linter`,
+after ANY history — `import_words` batches, `lint`s, `new Linter` + `import_words(export_words())` in any order, and
+any language-server operations in between — in which no two different imported words share a lower-cased normalized
+key (`NoCollision`), `user_dictionary` holds exactly the set of words imported so far, with pairwise different keys,
+and the lint dictionary EQUALS it (the "only synchronise when the count grew" shortcut of `import_words` is then
+sound). With a collision the last claim fails: `js_import_case_variant_stale`, `js_import_case_variant_lost`. -/
+theorem js_restart_preserves (f : Fns) (cur : List Entry) (ops : List Op)
+    (hcol : NoCollision f (jsImports ops)) :
+    (∀ w, w ∈ (runOps f cur {} ops).js.user ↔ w ∈ jsImports ops) ∧
+    (runOps f cur {} ops).js.lint = (runOps f cur {} ops).js.user ∧
+    UniqueKeys f (runOps f cur {} ops).js.user := by
+  have h := js_sync_from f cur ops {} [] rfl (by intro w; exact Iff.rfl) (by simpa using hcol)
+  exact ⟨by simpa using h.1, h.2, uniqueKeys_js_runOps f cur ops {} List.Pairwise.nil⟩
+
+/-- … hence every word imported so far (normalized, curated dialect condition met) is accepted by `Linter::lint` at
+every point of such a history -/
+theorem js_imported_words_accepted (f : Fns) (cur : List Entry) (ops : List Op) (w : Word)
+    (hcol : NoCollision f (jsImports ops)) (hw : w ∈ jsImports ops)
+    (hn : f.normalize w = w) (hcur : ∀ e, lookup f cur w = some e → e.dialectOk = true) :
+    (step f cur (runOps f cur {} ops) (.jsLint [w])).2 = [true] := by
+  obtain ⟨hm, hs, hu⟩ := js_restart_preserves f cur ops hcol
+  simp only [step, List.map_cons, List.map_nil, hs]
+  rw [acceptM_of_user f cur _ [] hu w ((hm w).mpr hw) hn hcur]
+
+/-- a history with repeated imports (inside a batch and across batches), two `new Linter`s (one with a permuted, one
+with a junk export order), a lint and language-server operations (one of them a case variant of an imported word) -/
+def jsHistory2 : List Op :=
+  [.jsImport [zqxv, abcq, zqxv], .jsLint [zqxv], .jsRestart [abcq, zqxv], .add Zqxv [], .jsImport [zqé, abcq],
+   .restart, .jsRestart [zqxv], .jsImport [colour], .lint fileUrl 0 [zqxv]]
+
+-- non-vacuity of `js_restart_preserves` / `js_imported_words_accepted`: the hypothesis, the computed state, the
+-- theorems applied
+example : jsImports jsHistory2 = [zqxv, abcq, zqxv, zqé, abcq, colour] ∧
+    NoCollision fnsAscii (jsImports jsHistory2) ∧
+    (runOps fnsAscii [] {} jsHistory2).js = ⟨[abcq, zqxv, zqé, colour], [abcq, zqxv, zqé, colour]⟩ := by decide
+example : (∀ w, w ∈ (runOps fnsAscii [] {} jsHistory2).js.user ↔ w ∈ jsImports jsHistory2) ∧
+    (runOps fnsAscii [] {} jsHistory2).js.lint = (runOps fnsAscii [] {} jsHistory2).js.user ∧
+    UniqueKeys fnsAscii (runOps fnsAscii [] {} jsHistory2).js.user :=
+  js_restart_preserves fnsAscii [] jsHistory2 (by decide)
+example : (step fnsAscii [⟨Zqxv, true⟩, ⟨colour, false⟩]
+    (runOps fnsAscii [⟨Zqxv, true⟩, ⟨colour, false⟩] {} jsHistory2) (.jsLint [zqxv])).2 = [true] :=
+  js_imported_words_accepted fnsAscii _ jsHistory2 zqxv (by decide) (by decide) (by decide) (by decide)
+-- the hypothesis is needed: the history of `js_import_case_variant_stale` has a collision and ends out of sync
+example : ¬ NoCollision fnsAscii (jsImports [.jsImport [Zqxv], .jsImport [zqxv]]) ∧
+    (runOps fnsAscii [] {} [.jsImport [Zqxv], .jsImport [zqxv]]).js.lint
+      ≠ (runOps fnsAscii [] {} [.jsImport [Zqxv], .jsImport [zqxv]]).js.user := by decide
+
 end Harper.C07
